@@ -46,6 +46,7 @@ func init() {
 		"strings.ToLower":     inToLower,
 		"strings.TrimSpace":   inTrimSpace,
 		"strings.Cut":         inCut,
+		"strings.Repeat":      inRepeat,
 		"internal/bytealg.IndexByteString": inIndexByte,
 		"internal/bytealg.CountString":     inCountByte,
 		"internal/stringslite.HasPrefix":   inHasPrefix,
@@ -125,9 +126,19 @@ func (c *Ctx) lift1(v Value, f func(s *Str) Value) Value {
 		if s.opaque {
 			panic(engineErr("INCONCLUSIVE string operation on opaque string " + s.tag))
 		}
+		saved := c.liftGuard
+		c.liftGuard = c.tt.And(c.liftGuardOr(), al.g)
 		out = append(out, Alt{al.g, f(s)})
+		c.liftGuard = saved
 	}
 	return c.mergeAlts(out)
+}
+
+func (c *Ctx) liftGuardOr() *Term {
+	if c.liftGuard == nil {
+		return c.tt.T
+	}
+	return c.liftGuard
 }
 
 func (c *Ctx) lift2(a, b Value, f func(x, y *Str) Value) Value {
@@ -138,7 +149,10 @@ func (c *Ctx) lift2(a, b Value, f func(x, y *Str) Value) Value {
 			if x.opaque || y.opaque {
 				panic(engineErr("INCONCLUSIVE string operation on opaque string " + x.tag + y.tag))
 			}
+			saved := c.liftGuard
+			c.liftGuard = c.tt.AndN(c.liftGuardOr(), al.g, bl.g)
 			out = append(out, Alt{c.tt.And(al.g, bl.g), f(x, y)})
+			c.liftGuard = saved
 		}
 	}
 	return c.mergeAlts(out)
@@ -481,7 +495,7 @@ func (c *Ctx) requireASCII(st *State, s *Str, what string) {
 	for _, b := range s.b {
 		bad = tt.Or(bad, tt.Not(tt.Bin(OpUlt, b, tt.Const(8, 0x80))))
 	}
-	if !bad.IsFalse() && c.feasible(st, bad) {
+	if !bad.IsFalse() && c.feasible(st, c.tt.And(bad, c.liftGuardOr())) {
 		panic(engineErr("UNMODELLED " + what + " on a string that may contain non-ASCII bytes (assume ASCII in the harness)"))
 	}
 }
@@ -963,4 +977,18 @@ func (c *Ctx) strLessV(a, b Value) *Term {
 		}
 	}
 	return r
+}
+
+func inRepeat(c *Ctx, st *State, fn *ssa.Function, args []Value) (*State, Value) {
+	n := args[1].(*Term)
+	if !n.IsConst() {
+		panic(engineErr("UNMODELLED strings.Repeat with symbolic count"))
+	}
+	return st, c.lift1(args[0], func(s *Str) Value {
+		r := &Str{b: make([]*Term, 0, len(s.b)*int(n.val))}
+		for i := 0; i < int(n.val); i++ {
+			r.b = append(r.b, s.b...)
+		}
+		return r
+	})
 }
